@@ -1386,8 +1386,10 @@ class UnitQuaternion(Quaternion):
         assert base.isvector(w, 3), 'w must be a 3-vector'
         w = base.getvector(w)
         theta = base.norm(w)
+        if base.iszerovec(w):
+            return cls()
         s = math.cos(theta / 2)
-        v = math.sin(theta / 2) * base.unitvec(w)
+        v = math.sin(theta / 2) * w / theta
         return cls(s=s, v=v, check=False)
 
     @classmethod
